@@ -202,6 +202,15 @@ func genReq(t *rapid.T, label string, intact *bool) Req {
 	}
 	var targets []targeted
 	kind := rapid.SampledFrom([]string{"create", "createV1", "list", "get", "deleteCol", "insert", "insert", "update", "deletePoints", "search", "search", "search", "insertV1", "searchV1", "updateV1", "ping"}).Draw(t, label+"-kind")
+	if forceTargeted {
+		// the job that spreads its cases evenly over the targeted violations: a request kind that has some
+		kind = rapid.SampledFrom([]string{"create", "create", "create", "createV1", "insert", "update", "deletePoints", "search", "search", "insertV1", "searchV1", "updateV1"}).Draw(t, label+"-tkind")
+		user, col = "alice", "colv2"
+		if strings.HasSuffix(kind, "V1") {
+			col, api = "colv1", "/v1"
+		}
+		r.Headers["X-User-Id"] = user
+	}
 	switch kind {
 	case "create":
 		r.Method, r.Path = "POST", "/v2/collections"
@@ -502,13 +511,22 @@ func genReq(t *rapid.T, label string, intact *bool) Req {
 	}
 	// mutations
 	if bm, ok := body.(map[string]any); ok {
-		switch rapid.IntRange(0, 5).Draw(t, label+"-mut") {
+		mut := rapid.IntRange(0, 5).Draw(t, label+"-mut")
+		if forceTargeted {
+			mut = 2
+		}
+		switch mut {
 		case 0, 1: // valid request
 		case 2, 3: // a targeted violation of the documented schema / limits
 			if len(targets) > 0 {
 				tg := rapid.SampledFrom(targets).Draw(t, label+"-target")
 				tg.f(bm)
 				r.MustReject = tg.name
+				if kind == "create" || kind == "createV1" {
+					// a user of its own: otherwise "collection exists" (409) or "quota reached" (403) would
+					// answer the request with a 4xx although the schema violation went unnoticed
+					r.Headers["X-User-Id"] = "tv" + strings.NewReplacer("-", "", ".", "").Replace(label)
+				}
 			}
 		default: // generic field mutation (only the universal oracle applies)
 			n := rapid.IntRange(1, 2).Draw(t, label+"-nmut")
@@ -539,7 +557,11 @@ func genReq(t *rapid.T, label string, intact *bool) Req {
 		r.Msgpack = rapid.IntRange(0, 3).Draw(t, label+"-mp") == 0
 	}
 	// header / body level mutations
-	switch rapid.IntRange(0, 19).Draw(t, label+"-hm") {
+	hm := rapid.IntRange(0, 19).Draw(t, label+"-hm")
+	if forceTargeted {
+		hm = 19
+	}
+	switch hm {
 	case 0:
 		delete(r.Headers, "X-User-Id")
 		r.MustReject = "missing X-User-Id header"
@@ -583,6 +605,29 @@ func pt(b map[string]any) map[string]any {
 		return m
 	}
 	return l[len(l)-1].(map[string]any)
+}
+
+// forceTargeted makes genReq produce a targeted violation on the intact baseline collections (set by
+// the generator of the "targeted" job only; rapid runs its generators on one goroutine).
+var forceTargeted bool
+
+// genTargeted: zero to two ordinary requests, then one request that carries a targeted violation of the
+// documented schema or limits, drawn evenly from all of them.
+func genTargeted(t *rapid.T) Case {
+	var c Case
+	intact := true
+	n := rapid.IntRange(0, 2).Draw(t, "npre")
+	for i := 0; i < n; i++ {
+		r := genReq(t, fmt.Sprintf("p%d", i), &intact)
+		if r.Method == "DELETE" && !strings.Contains(r.Path, "/points") || r.Headers["X-User-Id"] == "alice" && r.Method == "POST" && strings.HasSuffix(r.Path, "/collections") {
+			continue // keeps the baseline collections as they are
+		}
+		c.Reqs = append(c.Reqs, r)
+	}
+	forceTargeted = true
+	defer func() { forceTargeted = false }()
+	c.Reqs = append(c.Reqs, genReq(t, "tv", &intact))
+	return c
 }
 
 func genCase(t *rapid.T) Case {
@@ -830,6 +875,9 @@ func execCase(c Case) (res vt.Result) {
 		if status >= 400 && status < 500 && after != before {
 			return fail("refused with %d but stored data changed:\n--- before\n%s\n--- after\n%s", status, before, after)
 		}
+		if r.MustReject != "" {
+			rec.Count("must_reject: "+r.MustReject, 1)
+		}
 		if r.MustReject != "" && (status < 400 || status >= 500) {
 			return fail("violates the documented schema (%s) but was answered %d %s", r.MustReject, status, strings.TrimSpace(w.Body.String()))
 		}
@@ -848,6 +896,10 @@ func execCase(c Case) (res vt.Result) {
 
 func TestPropRequests(t *testing.T)   { vt.Check(t, "requests", genCase, execCase) }
 func TestReplayRequests(t *testing.T) { vt.Replay(t, "requests", execCase) }
+
+// the targeted violations, evenly
+func TestPropTargeted(t *testing.T)   { vt.Check(t, "targeted", genTargeted, execCase) }
+func TestReplayTargeted(t *testing.T) { vt.Replay(t, "targeted", execCase) }
 
 // FuzzRequests drives the same grammar and oracle with Go's native
 // coverage-guided fuzzer (the byte input is rapid's source of randomness), used
